@@ -380,7 +380,11 @@ func (w *c18aWorld) Run(c *kernel.RunCtx) {
 	// ---- quiescence: with every task finished the object's different views of itself must agree ----
 	for qi, q := range quotes {
 		e, x := q.Expiry(), q.Expired()
-		if want := e.Before(simrt.Now().UTC()); x != want {
+		shown := []int64{simEpoch.Unix()}
+		for _, ts := range clockTimes {
+			shown = append(shown, ts)
+		}
+		if !models.ExpiredAtQuiescence(x, e.Unix(), simrt.Now().Unix(), shown) {
 			c.Fail("views-disagree-at-quiescence", "Expired", "after all tasks finished, Q%d.Expiry() is %d and the clock shows %d, yet Q%d.Expired() answers %v", qi, e.Unix(), simrt.Now().Unix(), qi, x)
 			return
 		}
@@ -408,6 +412,14 @@ func (w *c18aWorld) Run(c *kernel.RunCtx) {
 	}
 	if msg := models.ExpiredExplained(ivs, simEpoch.Unix(), simEpoch.Unix()); msg != "" {
 		c.Fail("expired-unexplained", "", "%s", msg)
+		return
+	}
+	atStart := map[string]bool{}
+	for m := range st.Miners {
+		atStart[m] = true
+	}
+	if msg := models.SFeeExplained(ivs, atStart); msg != "" {
+		c.Fail("read-of-unstored-value", "FeeQuotes.Fee", "%s", msg)
 		return
 	}
 	// ---- linearizability ----
